@@ -108,7 +108,7 @@ class C16(Check):
                 sizes = [rng.choice([1 << 20, (1 << 20) + 13, 3 << 19]) for _ in range(rng.randint(2, 4))]
                 kind = ('zeros', 'text')[(k // 24) % 2]
                 codec = ('gzip', 'zstd')[(k // 12) % 2]
-            if k % 20 == 10:
+            if k % 20 == 2:
                 # the COMPRESSED stream is exactly T bytes long, T a buffer size a streaming wrapper may re-block on
                 # (zstd's recommended input / output sizes, powers of two) or a multiple: the last byte of the frame is
                 # then the last byte of a block
